@@ -323,6 +323,47 @@ def runBidirectionalForward : List String := [
   "<-done",
   "closeAll()"
 ]
+def Conn_IsHealthy : List String := [
+  "c.mu.Lock()",
+  "defer c.mu.Unlock()",
+  "if c.broken",
+  "return false",
+  "end",
+  "if c.tcpConn == nil",
+  "return false",
+  "end",
+  "maxIdleTime := 5 * time.Minute",
+  "if time.Since(c.lastUsed) > maxIdleTime",
+  "return false",
+  "end",
+  "oldDeadline := time.Time{}",
+  "c.tcpConn.SetReadDeadline(time.Now().Add(1 * time.Millisecond))",
+  "defer c.tcpConn.SetReadDeadline(oldDeadline)",
+  "one := make([]byte, 1)",
+  "_, err := c.tcpConn.Read(one)",
+  "if err != nil",
+  "if netErr, ok := err.(net.Error); ok && netErr.Timeout()",
+  "return true",
+  "end",
+  "return false",
+  "end",
+  "return false"
+]
+def Conn_Release : List String := [
+  "c.mu.Lock()",
+  "if !c.inUse",
+  "c.mu.Unlock()",
+  "return",
+  "end",
+  "c.inUse = false",
+  "c.lastUsed = time.Now()",
+  "c.mu.Unlock()",
+  "if c.pool != nil && !c.broken",
+  "c.pool.Put(c)",
+  "else",
+  "c.Close()",
+  "end"
+]
 end Flow
 
 end Gen
